@@ -287,36 +287,6 @@ static int any_injected(int api, int *err_out, int *side_mask)
   return n;
 }
 
-static void forked_side(reproc_t *p, int r)
-{
-  /* on the forked side of fork mode: every call except destroy must be rejected */
-  if (r != 0) {
-    vk_violation("C04", "fork-child-result", "h_start|fork", "start returned %d on the forked side", r);
-    _exit(0);
-  }
-  uint8_t b[4];
-  reproc_stop_actions sa = { { REPROC_STOP_KILL, 0 }, { REPROC_STOP_NOOP, 0 }, { REPROC_STOP_NOOP, 0 } };
-  int rs[8];
-  rs[0] = reproc_pid(p);
-  rs[1] = reproc_wait(p, 0);
-  rs[2] = reproc_terminate(p);
-  rs[3] = reproc_kill(p);
-  rs[4] = reproc_stop(p, sa);
-  rs[5] = reproc_read(p, REPROC_STREAM_OUT, b, sizeof b);
-  rs[6] = reproc_write(p, b, 1);
-  rs[7] = reproc_close(p, REPROC_STREAM_IN);
-  static const char *const nm[] = { "pid", "wait", "terminate", "kill", "stop", "read", "write", "close" };
-  for (int i = 0; i < 8; i++)
-    if (rs[i] != REPROC_EINVAL)
-      vk_violation("C14", "forked-side-rejects", "h_start|fork", "reproc_%s on the forked side returned %s instead of EINVAL", nm[i], hx_errname(rs[i]));
-  reproc_options o2;
-  memset(&o2, 0, sizeof o2);
-  int r2 = reproc_start(p, hx_helper_argv(), o2);
-  if (r2 != REPROC_EINVAL) vk_violation("C14", "forked-side-rejects", "h_start|fork", "reproc_start on the forked side returned %s", hx_errname(r2));
-  if (reproc_destroy(p) != NULL) vk_violation("C15", "destroy-returns-null", "h_start|fork", "destroy on the forked side did not return NULL");
-  vk_forked_side_becomes_helper();
-}
-
 static void body(const struct params *pa)
 {
   char key[160], sigdesc[40] = "-";
@@ -410,7 +380,7 @@ static void body(const struct params *pa)
   take_state(&st0);
   g_in_start = 1;
   int r = hx_start(p, sc.argv, sc.o);
-  if (vk_side != 0) forked_side(p, r);
+  if (vk_side != 0) hx_forked_side(p, r);
   g_in_start = 0;
   int start_api = hx_last_api;
   take_state(&st1);
@@ -476,7 +446,7 @@ static void body(const struct params *pa)
     }
     g_in_start = 1;
     r = hx_start(p, sc.argv, sc.o);
-    if (vk_side != 0) forked_side(p, r);
+    if (vk_side != 0) hx_forked_side(p, r);
     g_in_start = 0;
     scn_post_path_identity(&sc);
     if (r < 0) {
